@@ -121,7 +121,9 @@ func Text(ctx *sql.Context, t sql.Type, v interface{}) (s string, isNull bool) {
 
 // Query runs one statement to completion on ctx's session. Never panics, never blocks forever.
 func (e *Eng) Query(ctx *sql.Context, q string) *Res {
-	return e.QueryTimeout(ctx, q, 20*time.Second)
+	// generous default: on a heavily loaded machine even a CREATE TABLE has been seen to exceed 20 s,
+	// which must not turn into an observation ("timeout") of the code under test
+	return e.QueryTimeout(ctx, q, 120*time.Second)
 }
 
 func (e *Eng) QueryTimeout(ctx *sql.Context, q string, d time.Duration) *Res {
